@@ -34,6 +34,8 @@ type MS struct {
 	MinItems   *int          `json:"minItems,omitempty"`
 	MaxItems   *int          `json:"maxItems,omitempty"`
 	Unique     bool          `json:"unique,omitempty"`
+	MinProps   *int          `json:"minProps,omitempty"`
+	MaxProps   *int          `json:"maxProps,omitempty"`
 	Props      []MKV         `json:"props,omitempty"`
 	Required   []string      `json:"required,omitempty"`
 	Addl       *MS           `json:"addl,omitempty"`
@@ -97,6 +99,12 @@ func (s *MS) Render() map[string]interface{} {
 	if s.MaxItems != nil {
 		m["maxItems"] = *s.MaxItems
 	}
+	if s.MinProps != nil {
+		m["minProperties"] = *s.MinProps
+	}
+	if s.MaxProps != nil {
+		m["maxProperties"] = *s.MaxProps
+	}
 	if s.Unique {
 		m["uniqueItems"] = true
 	}
@@ -124,8 +132,9 @@ func (s *MS) Render() map[string]interface{} {
 }
 
 type msGen struct {
-	r    *rng.R
-	defs []string
+	r        *rng.R
+	defs     []string
+	addlRefs []string // definitions an additionalProperties $ref may point to (the earlier ones: no cycle through maps)
 }
 
 var msPropNames = []string{"name", "size", "flag", "tags", "meta", "id", "ratio", "kind", "child", "foo-bar", "X Y"}
@@ -220,6 +229,28 @@ func (g *msGen) object(depth int) *MS {
 	}
 	if g.r.Chance(1, 6) {
 		s.Addl = g.scalar()
+		if len(g.addlRefs) > 0 && g.r.Chance(1, 3) {
+			// map[string]<Model>: the element type may itself have properties + additionalProperties.  Only EARLIER definitions:
+			// a definition whose additionalProperties reach itself makes the generator overflow its stack (C01 known finding)
+			s.Addl = &MS{Ref: g.r.Pick(g.addlRefs)}
+		}
+	}
+	// property counts: one bound, the other, or both (tight enough for instances and their mutations to cross them)
+	hasArray := false
+	for _, kv := range s.Props {
+		if kv.V.Ty == "array" {
+			hasArray = true // an absent array member without omitempty comes back as null from the re-marshalling the generated
+			// count check relies on (known finding): counts are only generated where that cannot interfere
+		}
+	}
+	switch k := g.r.Intn(8); {
+	case hasArray:
+	case k == 0:
+		s.MinProps = ip(1 + g.r.Intn(2))
+	case k == 1:
+		s.MaxProps = ip(max(1, n-g.r.Intn(2)))
+	case k == 2:
+		s.MinProps, s.MaxProps = ip(1), ip(n+1)
 	}
 	return s
 }
@@ -503,6 +534,7 @@ func modelsRun(run *ev.Run, which string) {
 		var defs []MKV
 		dm := map[string]*MS{}
 		for i, n := range g.defs {
+			g.addlRefs = g.defs[:i]
 			var s *MS
 			if i == 2 && g.r.Chance(1, 2) {
 				// allOf of a $ref and an inline object
@@ -524,12 +556,30 @@ func modelsRun(run *ev.Run, which string) {
 					}
 				}
 				inl.Props, inl.Required, inl.Addl = ps, req, nil
+				// no property counts inside an allOf member: the generated code counts the members of that member's own struct,
+				// not of the whole object (recorded in DESIGN.md as an observation; it would mask everything else here)
+				inl.MinProps, inl.MaxProps = nil, nil
 				s = &MS{AllOf: []*MS{{Ref: "Alpha"}, inl}}
 			} else {
 				s = g.object(1)
 			}
 			defs = append(defs, MKV{K: n, V: s})
 			dm[n] = s
+		}
+		// three fixed shapes every definition set carries (they are reached rarely by the random shapes): an object with ONE
+		// property-count bound, an element type with properties + additionalProperties, and a map of such elements
+		counted := &MS{Ty: "object", Props: []MKV{{K: "a", V: &MS{Ty: "string"}}, {K: "b", V: &MS{Ty: "integer"}}, {K: "c", V: &MS{Ty: "boolean"}}}}
+		if si%2 == 0 {
+			counted.MaxProps = ip(2)
+		} else {
+			counted.MinProps = ip(2)
+		}
+		elem := &MS{Ty: "object", Props: []MKV{{K: "kind", V: &MS{Ty: "string"}}, {K: "size", V: &MS{Ty: "integer"}}}, Addl: &MS{Ty: "integer"}}
+		bag := &MS{Ty: "object", Addl: &MS{Ref: "Elem"}}
+		for _, kv := range []MKV{{K: "Counted", V: counted}, {K: "Elem", V: elem}, {K: "Bag", V: bag}} {
+			defs = append(defs, kv)
+			dm[kv.K] = kv.V
+			g.defs = append(g.defs, kv.K)
 		}
 		// keep $ref cycles out of required chains: instances are built with a depth bound anyway
 		specDoc := modelSpec(defs)
@@ -600,6 +650,22 @@ func modelsRun(run *ev.Run, which string) {
 						if sc.Valid {
 							k = "rejects-valid"
 						}
+						if sc.Valid && strings.Contains(resp.VErr, "extra1 in body is required") {
+							// map[string]<Model>: every value goes through validate.Required, which refuses the zero value - an
+							// empty object {} as a map value is reported missing
+							st["MISMATCH:zero-map-value-reported-missing"]++
+							replay["lean"] = sc
+							run.Deviation("rejects-valid:zero-map-value-reported-missing", "the generated model rejects a valid instance: a map value that is an empty object is reported as a missing required member", replay)
+							continue
+						}
+						if sc.Valid && (strings.Contains(resp.VErr, "should have at most") || strings.Contains(resp.VErr, "should have at least")) && strings.Contains(resp.VErr, "properties") {
+							// minProperties / maxProperties are checked on the RE-MARSHALLED struct: absent array members without
+							// omitempty come back as null and are counted
+							st["MISMATCH:property-count-on-remarshalled-struct"]++
+							replay["lean"] = sc
+							run.Deviation("rejects-valid:property-count-on-remarshalled-struct", fmt.Sprintf("the generated model rejects a valid instance on its property count (%s)", firstLine(resp.VErr)), replay)
+							continue
+						}
 						st["MISMATCH:"+k]++
 						replay["lean"] = sc
 						run.Deviation(k+":"+mutClass(what), fmt.Sprintf("the generated model %s an instance that is %s for the definition (decode error: %q, validation error: %q)",
@@ -616,6 +682,13 @@ func modelsRun(run *ev.Run, which string) {
 			case "C05":
 				if !sc.Valid || !accepted || resp.Out == nil {
 					st["not-a-valid-instance"]++
+					continue
+				}
+				if strings.HasSuffix(what, "null:extra1") || (mutClass(what) == "null" && anyAddl(dm)) {
+					// JSON null as the value of an additional property (also: of a member that an allOf sibling with
+					// additionalProperties sees as additional) is decoded as the zero value of the map's element type
+					// (documented null reading; strict schema semantics reject the document in the first place)
+					st["documented-gap(null additional property)"]++
 					continue
 				}
 				run.Case(def + "|" + string(doc))
@@ -700,4 +773,37 @@ func CheckC05(run *ev.Run) {
 	run.Trusted = append(run.Trusted, "genlab models lab", "encoding/json")
 	run.Assume = append(run.Assume, "fragment as C02; polymorphic base types and tuples are not generated")
 	modelsRun(run, "C05")
+}
+
+// anyAddl reports whether some schema of the definition set has additionalProperties.
+func anyAddl(dm map[string]*MS) bool {
+	var walk func(s *MS, d int) bool
+	walk = func(s *MS, d int) bool {
+		if s == nil || d > 12 {
+			return false
+		}
+		if s.Addl != nil {
+			return true
+		}
+		if walk(s.Items, d+1) {
+			return true
+		}
+		for _, kv := range s.Props {
+			if walk(kv.V, d+1) {
+				return true
+			}
+		}
+		for _, a := range s.AllOf {
+			if walk(a, d+1) {
+				return true
+			}
+		}
+		return false
+	}
+	for _, s := range dm {
+		if walk(s, 0) {
+			return true
+		}
+	}
+	return false
 }
